@@ -351,6 +351,9 @@ def corr_rows(ctx):
                 got = outs[0]["rows"]
                 gt = "!".join(";".join(("nan" if c.get("nan") else cellstr(c["kv"]) if "kv" in c else "OTHER") for c in row) for row in got)
                 rep.case(key=("rows", len(rows), P), nontrivial=(len(rows) > 0), sample={"rows": rows, "ranks": P, "loaded": gt})
+                if not hasattr(ctx, "small_loads"):
+                    ctx.small_loads = []
+                ctx.small_loads.append((P, rows, got))
                 rep.traces += 1
                 if gt != mt or len(got) != len(rows):
                     rep.fail("broken-correspondence", "real load_subs (%d rows, %d ranks) differs from the model" % (len(rows), P), "C17:rows-corr",
@@ -638,6 +641,20 @@ def search(ctx):
                                      "C17:roundtrip:value", input={"cell": wc["s"], "point": pt[:4], "ranks": P}, observed=gn, expected=wn)
                             break
         rep.case(key=("roundtrip", P), sample={"ranks": P, "rows": len(written)})
+    # (1b) the small files (0..23 rows, fewer rows than ranks, empty rows): row i stays row i, with as many steps, nan <-> nan and the
+    #      same keys, for every rank count -- stated on what was written, not on the model
+    seen_small = set()
+    for P, rows, got in getattr(ctx, "small_loads", []):
+        shape_w = [[("nan" if c == "nan" else sorted(re.findall(r"(a\d+):", c))) for c in row] for row in rows]
+        shape_g = [[("nan" if c.get("nan") else sorted(k for k, _ in c["kv"]) if "kv" in c else "?") for c in row] for row in got]
+        rep.evaluations += 1
+        if shape_g != shape_w and (len(rows), P) not in seen_small and len(seen_small) < 3:
+            seen_small.add((len(rows), P))
+            first = next((j for j in range(max(len(shape_g), len(shape_w))) if j >= len(shape_g) or j >= len(shape_w) or shape_g[j] != shape_w[j]), None)
+            rep.fail("failing-input", "a file of %d rows read by %d ranks comes back with %d rows; first differing row %r" % (len(rows), P, len(got), first),
+                     "C17:roundtrip:small-file", input={"rows": rows, "ranks": P},
+                     observed=shape_g[first] if first is not None and first < len(shape_g) else "missing",
+                     expected=shape_w[first] if first is not None and first < len(shape_w) else "no such row")
     # (2) composed map before/after the real cancellation, numerically, on the real objects
     rng = esrv.rng(ctx.seed, "C17/compose")
     fam3 = ["{a0: -a0}", "{a1: -a1}", "{a2: -a2}", "{a0: 1/a0}", "{a1: 1/a1}", "{a2: 1/a2}", "{a1: a0, a0: a1}", "{a0: a1, a1: a0}",
